@@ -518,12 +518,26 @@ def rewrite_tokens(toks, dialect):
                 toks[k] = _w('dm_' + toks[k + 2][1].lower())
                 del toks[k + 2:k + 4]
                 changed = True; break
+    # case when (a, b) IS NULL then null else (a, b) end     PostgreSQL, composite keys under a LEFT JOIN -> dm_row_or_null(a, b)
+    #   (9.24.? / 9.2 row comparison: "row IS NULL" is true when every field is NULL)
+    k = 0
+    while dialect == 'postgres' and k < len(toks) - 8:
+        if _is(toks[k], 'word', 'CASE') and _is(toks[k + 1], 'word', 'WHEN') and toks[k + 2] == ('op', '('):
+            e1 = _close(toks, k + 2)
+            grp = toks[k + 2:e1 + 1]
+            tail = toks[e1 + 1:e1 + 7]
+            if [t[1].upper() for t in tail] == ['IS', 'NULL', 'THEN', 'NULL', 'ELSE', '('] and _top_level(toks, k + 3, e1, lambda kind, t: (kind, t) == ('op', ',')):
+                e2 = _close(toks, e1 + 6)
+                if toks[e1 + 6:e2 + 1] == grp and e2 + 1 < len(toks) and _is(toks[e2 + 1], 'word', 'END'):
+                    toks[k:e2 + 2] = [_w('dm_row_or_null')] + grp
+        k += 1
     # COUNT(DISTINCT (a, b)) / COUNT(DISTINCT a, b)  row counting forms -> COUNT(DISTINCT dm_row(a, b))
     k = 0
     while k < len(toks) - 3:
         if _is(toks[k], 'word', 'COUNT') and toks[k + 1] == ('op', '(') and _is(toks[k + 2], 'word', 'DISTINCT'):
             end = _close(toks, k + 1)
-            if dialect == 'postgres' and toks[k + 3] == ('op', '(') and _close(toks, k + 3) == end - 1 \
+            if toks[k + 3][0] == 'word' and toks[k + 3][1].startswith('dm_row'): pass
+            elif dialect == 'postgres' and toks[k + 3] == ('op', '(') and _close(toks, k + 3) == end - 1 \
                     and _top_level(toks, k + 4, end - 1, lambda kind, t: (kind, t) == ('op', ',')):
                 toks.insert(k + 3, _w('dm_row'))
             elif dialect == 'mysql' and _top_level(toks, k + 3, end, lambda kind, t: (kind, t) == ('op', ',')):
@@ -712,6 +726,20 @@ def _row(dialect):
         return repr(tuple((type(x).__name__ if not isinstance(x, (int, float)) else 'n', float(x) if isinstance(x, (int, float)) else x) for x in a))
     return f
 
+def _my_to_char_ext(x):
+    """MySQL CAST(x AS CHAR): integers and short doubles as in _to_text (0 -> '0', 2.5 -> '2.5'); the manual does not fix the number of
+    digits printed for a double that needs more than 15 significant digits"""
+    if isinstance(x, float) and x == x and len(repr(abs(x)).replace('.', '').replace('-', '').lstrip('0').split('e')[0]) > 15:
+        raise Flag('text form of a double needing more than 15 significant digits')
+    return _to_text(x)
+def _my_concat_ext(*a):
+    """MySQL 12.8 CONCAT(): NULL if any argument is NULL; "a numeric argument is converted to its equivalent nonbinary string form""""
+    if any(x is None for x in a): return None
+    return ''.join(_my_to_char_ext(x) if isinstance(x, float) else str(x) for x in a)
+def _row_or_null(*a):
+    if all(x is None for x in a): return None
+    return _row('postgres')(*a)
+
 def udfs_extended(dialect, sub=None):
     """function models added for C02, on top of udfs(dialect)"""
     if dialect == 'postgres':
@@ -722,13 +750,13 @@ def udfs_extended(dialect, sub=None):
                 ('upper', 1, _case_map(str.upper)), ('lower', 1, _case_map(str.lower)),
                 ('power', 2, _power(dialect)), ('pg_to_int', 1, _pg_to_int_ext),
                 ('dm_year', 1, _date_part(0, 4)), ('dm_month', 1, _date_part(5, 7)), ('dm_day', 1, _date_part(8, 10)),
-                ('dm_row', -1, _row(dialect))]
+                ('dm_row', -1, _row(dialect)), ('dm_row_or_null', -1, _row_or_null)]
     if dialect == 'mysql':
         return [('trim', 1, _spaces('both')), ('ltrim', 1, _spaces('leading')), ('rtrim', 1, _spaces('trailing')),
                 ('dm_trim_both', 2, _trim_str('both')), ('dm_trim_leading', 2, _trim_str('leading')), ('dm_trim_trailing', 2, _trim_str('trailing')),
                 ('like', 2, _like(sub, dialect)), ('like', 3, _like(sub, dialect)),
                 ('upper', 1, _case_map(str.upper)), ('lower', 1, _case_map(str.lower)),
-                ('power', 2, _power(dialect)), ('pow', 2, _power(dialect)), ('length', 1, _my_length_bytes), ('my_to_int', 1, _my_to_int_ext),
+                ('power', 2, _power(dialect)), ('pow', 2, _power(dialect)), ('length', 1, _my_length_bytes), ('my_to_int', 1, _my_to_int_ext), ('my_to_char', 1, _my_to_char_ext), ('concat', -1, _my_concat_ext),
                 ('year', 1, _date_part(0, 4)), ('month', 1, _date_part(5, 7)), ('day', 1, _date_part(8, 10)),
                 ('dm_row', -1, _row(dialect))]
     return []
